@@ -202,15 +202,17 @@ def ref_mirror_root(L, m, kp, sec):
 
 def f06b_mirror_root(law, fname, L, root, kp, rtol, tol, m=None, sec=False):
     """F06_b: Seeger-Beste residual has a second (mirror) root above |L| (u -> -u).  The vectorised secant
-    iteration starts from x0 = |L|(1-(1-1/K_p)/1000) and x0(1+dx)+dx; when K_p is so close to 1 that the second
-    start point lies beyond |L| the iteration may settle on the mirror root.  Class: start interval straddles |L|
-    and the mirror root is farther from the true root than the requested tolerance."""
+    iteration starts from x0 = |L|(1-(1-1/K_p)/1000) and x0(1+dx)+dx; when K_p is so close to 1 (below ~1.012) that the
+    second start point lies near or beyond |L| (where the coded residual is singular: u -> 0) the iteration may settle on
+    the mirror root.  Class: second start point beyond the middle of [x0, |L|] and the mirror root is farther from the
+    true root than the requested tolerance."""
     if law != "SB" or fname not in ("stress", "stress_secondary_branch") or L == 0:
         return False
     a = abs(L)
     x0 = a * (1.0 - (1.0 - 1.0 / kp) / 1000.0)
     p1 = x0 * (1.0 + ARRAY_SECANT_DX) + ARRAY_SECANT_DX
-    if p1 < a * (1.0 - 1e-9):      # (a start point within rounding of |L| hits the u == 0 singularity of the coded residual)
+    if p1 < x0 + 0.5 * (a - x0):
+        # second start point stays in the lower half of [x0, |L|]: u(p1) is bounded away from the u -> 0 singularity
         return False
     mirror = ref_mirror_root(a, m, kp, sec) if m is not None else None
     if mirror is None:
